@@ -26,7 +26,7 @@ func init() {
 		Assumptions: []string{"bytes.Reader is the model of read/seek behaviour (a rejected negative seek keeps the position in both)", "invalid whence values and chunk sizes above the 16 MiB buffer are not driven"},
 		Batches:     func(tier string) int { return 16 },
 		Require: func(tier string) map[string]int64 {
-			return map[string]int64{"uploads_completed": 300, "companion_files": 60, "uploads_with_their_own_chunk_size": 20, "script_steps": 8000, "chunk_census": 300, "suspend_resume": 60, "aborts": 30, "deletes": 30, "cleanups": 30, "buffer_crossing_uploads": 2, "negative_seeks_rejected": 100, "reads_at_eof": 300}
+			return map[string]int64{"uploads_completed": 300, "companion_files": 60, "rolled_back_deletes": 10, "uploads_with_their_own_chunk_size": 20, "script_steps": 8000, "chunk_census": 300, "suspend_resume": 60, "aborts": 30, "deletes": 30, "cleanups": 30, "buffer_crossing_uploads": 2, "negative_seeks_rejected": 100, "reads_at_eof": 300}
 		},
 		Run: runC18,
 	})
@@ -512,6 +512,33 @@ func c18Run(c *fw.Ctx, ctx context.Context, client lungo.IClient, r *fw.Rand, id
 				var buf bytes.Buffer
 				if _, err := e.bucket.DownloadToStreamByName(ctx, name, &buf); !errors.Is(err, lungo.ErrFileNotFound) {
 					e.fail("gridfs:rename-old-name", fmt.Sprintf("the old name still resolves after Rename (err=%v)", err))
+				}
+			}
+			if lifeNames[lifecycle] == "delete" && r.Bool() {
+				// a delete inside a session transaction that is rolled back leaves
+				// the file (and its companions) as they were
+				if sess, err := client.StartSession(); err == nil {
+					if err := sess.StartTransaction(); err == nil {
+						var derr error
+						lungo.WithSession(ctx, sess, func(sc lungo.ISessionContext) error {
+							derr = e.bucket.Delete(sc, id)
+							return nil
+						})
+						sess.AbortTransaction(ctx)
+						c.Count("rolled_back_deletes", 1)
+						if derr != nil {
+							e.fail("gridfs:delete", "Delete inside a session transaction failed: "+derr.Error())
+							sess.EndSession(ctx)
+							return
+						}
+					}
+					sess.EndSession(ctx)
+				}
+				if !e.census(id, content) || !e.downloadWhole(id, name, content) {
+					return
+				}
+				if withComps && !checkComps() {
+					return
 				}
 			}
 			if lifeNames[lifecycle] == "delete" {
